@@ -208,18 +208,34 @@ def bounded_native(ck):
     return {"evaluations": n, "failures": fails}
 
 
+def stage(ck):
+    """the function-level obligations only (used by C11): value, frame, elementwise"""
+    qn = "taus:Taus.tau_exit_prob"
+    registry = []
+    ev = {"beta": (0.0, 1.5707963267948966), "logE": (6.0, 12.0)}
+    sc = Scenario(qn, build, events=ev, extras_sym=lambda: {"tables": SymTables()}, extras_native=lambda rng: {"tables": NativeTables(VERSIONS[int(rng.integers(0, 3))])},
+                  extra_hyps=extra_hyps, special_native=specials)
+    fc = FunctionCheck(ck, qn, sc, spec, ["Pexit"], overrides=overrides(registry), spec_overrides={}, rtol=1e-5)
+    fc.explore().obligations()
+    return fc, sc, registry
+
+
+def specials(rng):
+    out = []
+    for ver in VERSIONS:
+        nt = NativeTables(ver)
+        beta = np.array([nt.beta_max, np.nextafter(nt.beta_max, 0), np.nextafter(nt.beta_max, 9), nt.beta_min, nt.beta_min * 0.5, 0.0, 0.4])
+        out.append({"tables": nt, "beta": beta, "logE": np.array([6.0, 7.1, 9.0, 12.0, 8.0, 6.5, 10.0])})
+    return out
+
+
 def run(ck):
     ck.assume("scipy RegularGridInterpolator(axes, values)(points) is the multilinear interpolant of `values` on `axes` and raises ValueError outside them (default bounds_error=True)",
               "table entries are an uninterpreted function of the node indices in the proof; shipped values are decided exhaustively (data obligations) and by the bounded native comparison")
     ck.trust("numpy elementwise / mask semantics (nssvc.npmodel)", "h5py (independent reader for the data obligations)")
     ck.add_file("nuspacesim/simulation/taus/taus.py")
     qn = "taus:Taus.tau_exit_prob"
-    registry = []
-    ev = {"beta": (0.0, 1.5707963267948966), "logE": (6.0, 12.0)}
-    sc = Scenario(qn, build, events=ev, extras_sym=lambda: {"tables": SymTables()}, extras_native=lambda rng: {"tables": NativeTables(VERSIONS[int(rng.integers(0, 3))])},
-                  extra_hyps=extra_hyps)
-    fc = FunctionCheck(ck, qn, sc, spec, ["Pexit"], overrides=overrides(registry), spec_overrides={})
-    fc.explore().obligations()
+    fc, sc, registry = stage(ck)
     fc.crosscheck(0)
     # call-site obligations on the interpolator
     for ci, cp in enumerate(fc.code_paths):
